@@ -8,8 +8,9 @@ import PyrollModel.Gen.C06
     sum <impl> <bits> …                 value of a generated `sum([u.a for u in self.units])` implementation on the
                                         given member values: answers `<collection> <attr> <bits>`
     thread <formula> <vIn> <vStep> <start bits> <bits> …   `Handover.threadAll` : answers all intermediate values
-    H <hidden prefix> <extra root hooks> <dict> <unit>   hand-over model on one unit tree with the generated root hook
-                                        list (+ the root hooks a plugin / the harness added at run time).
+    H <hidden prefix> <extra root hooks> <dict> <cache> <unit>   hand-over model (`Handover.runObj`) on one unit tree
+                                        with the generated root hook list (+ the root hooks a plugin / the harness
+                                        added at run time); dict / cache = `__dict__` / hook cache of the handed object.
         dict  = `-` | k=v,k=v,…  (v : value identifier, a natural number)
         unit  = U <inOwners> <outOwners> <inImpl> <outImpl> <inDefault> <#pre> <#post> <#subs>  followed by that many units
         owners = `-` | a,b,…
@@ -59,13 +60,13 @@ def floats (ts : List String) : Option (List Float) := ts.mapM floatOfBitsStr
 
 def handle (line : String) : String :=
   match toks line with
-  | "H" :: pfx :: extra :: d :: rest =>
-    match parseDict d, parseUnit rest, parseExtra extra with
-    | some d, some (u, []), some ex =>
-      match run (Gen.C06.rootHooks ++ ex) (fun k => k.startsWith pfx) u d with
+  | "H" :: pfx :: extra :: d :: c :: rest =>
+    match parseDict d, parseDict c, parseUnit rest, parseExtra extra with
+    | some d, some c, some (u, []), some ex =>
+      match runObj (Gen.C06.rootHooks ++ ex) (fun k => k.startsWith pfx) u { dict := d, cache := c } with
       | .ok r => "ok " ++ " ".intercalate (r.trace.map fun p => showDict p.1 ++ ";" ++ showDict p.2)
       | .error k => "AttributeError " ++ k
-    | _, _, _ => "bad-op"
+    | _, _, _, _ => "bad-op"
   | "sum" :: name :: rest =>
     match Gen.C06.sumImpls.find? (fun p => p.1 = name), floats rest with
     | some (_, i), some xs =>
